@@ -50,6 +50,30 @@ func GenDaemon(prop string, seed uint64, tier string) *DaemonScenario {
 	}
 	use["clients"] = true
 	switch prop {
+	case "C08", "C09":
+		sc.N = r.Range(3, 4)
+		sc.T = r.Range(sc.N/2+1, sc.N)
+		sc.Extra = 1
+		sc.PeriodS = 2
+		sc.Net.DropPct, sc.Net.DupPct = 0, r.Range(0, 8)
+		cmds := []string{"accept", "reject", "join", "execute", "abort", "reshare_ok", "reshare_ok", "reshare_low_threshold", "reshare_high_threshold", "reshare_expired",
+			"reshare_drop_member", "reshare_leader_leaves", "reshare_unknown_remainer"}
+		forges := []string{"proposal_by_attacker_key", "proposal_by_other_member_key", "accept_for_someone_else", "abort_by_non_leader", "execute_by_non_leader", "mut_sender", "mut_sigbyte", "mut_terms"}
+		for k := r.Range(5, 12); k > 0; k-- {
+			if prop == "C09" && r.Bool(65) || prop == "C08" && r.Bool(20) {
+				sc.DKGSteps = append(sc.DKGSteps, DKGStep{K: "forge", Node: r.Intn(sc.N), S: forges[r.Intn(len(forges))], A: r.Intn(100)})
+			} else {
+				sc.DKGSteps = append(sc.DKGSteps, DKGStep{K: "cmd", Node: r.Intn(sc.N + 1), S: cmds[r.Intn(len(cmds))]})
+			}
+			if r.Bool(12) {
+				sc.DKGSteps = append(sc.DKGSteps, DKGStep{K: "flow"})
+			}
+		}
+		sc.DKGSteps = append(sc.DKGSteps, DKGStep{K: "flow"})
+		sc.Script = nil
+		sc.HealAtMs = g0
+		sc.Rounds = 4
+		return sc
 	case "C01":
 		// requests landing in the very instants a round is produced, with wide schedule points
 		sc.Yield = YieldPlan{Seed: r.U64(), PerMill: []int{60, 150, 300}[r.Intn(3)], MaxNs: []int{50_000, 2_000_000, 5_000_000}[r.Intn(3)]}
